@@ -102,8 +102,7 @@ See also: fixed, rational
         if cls.guard < 0 or str(cls.guard) != str(guard):
             raise UsageError('Guarded: guard=%s; must be an int >= 0' % guard)
 
-        if options.getopt('display') is None:   # don't override default set by rule
-            options.setopt('display', default=cls.precision)
+        options.setopt('display', default=cls.precision)    # (setopt keeps a default already set by the rule)
         display = options.getopt('display')
         try:
             cls.display = int(display)
